@@ -11,3 +11,5 @@ LEVEL_TEXT = "History property reduced to a state invariant: every run starts wi
 LEVEL_NOTE = "Trusts the pyvc encoding, z3/cvc5; user-defined checks are assumed to honour reset()."
 TECHNIQUE = "contract-based deductive verification with ghost protocol state (VCs from the ast of the real functions, z3/cvc5) + bounded history exploration"
 UNITS = [VIO.unit_reader_rows(), VIO.unit_writer_init(), CK.unit_check_resets(), VIO.unit_close(), VIO.unit_module_rows_validate(), CK.unit_is_unique_check_row(), H.unit_history_sweep()]
+from contracts import structure as ST
+UNITS += [ST.unit_no_hidden_state()]
